@@ -61,8 +61,8 @@ CHECKS = [
   'for all R, B.'),
  ('C10', 'other', 'static path enumeration: authority predicate coverage and provenance per branch',
   'Partial: the predicate that lets the authority be omitted compares user info, host by kind and port on every "equal" path; '
-  'provenance per branch; "./" guard; error codes before allocation. Not decided: that the prefix walk and ".." emission invert '
-  'resolution.'),
+  'provenance per branch; "./" guard; error codes before allocation; the common-prefix walk never treats the last segment of only '
+  'one path as common. Not decided: that the prefix walk and ".." emission invert resolution in general.'),
  ('C11', 'proof', 'static path enumeration with field obligations',
   'Every path of uriEqualsUri / uriCompareRange is enumerated with the primitive tests as atoms; a TRUE return has established '
   'equality of every content field of the URI structure, a FALSE return a difference; NULL cases, symmetry, no writes.'),
@@ -85,7 +85,8 @@ CHECKS = [
   'Escape and unescape loops are turned into finite transducers from source (every character value x flag x state); per-transition '
   'bounds, alphabet, terminator, in-place invariant, decode tables, and the composition unescape(escape(c)) = c.'),
  ('C17', 'other', 'static symbolic bounded-write analysis with callee write summaries and interval guards',
-  'Partial: writes of the query composer bounded by the checked estimate, estimate >= escape bound, INT_MAX guards, item count, no silent UriBool/enum conversion of the break option at any call. Not '
+  'Partial: writes of the query composer bounded by the checked estimate, estimate >= escape bound, INT_MAX guards, item count, no silent UriBool/enum conversion of the break option at any call, every copied item text '
+  'unescaped with the caller\'s options. Not '
   'decided: compose/dissect round trip.'),
  ('C18', 'other', 'static symbolic bounded-write analysis with an inductive potential invariant; decision tables read off all paths',
   'Partial: every store of the name-to-URI direction ends within the documented 7 + 3n + 1 / 8 + 3n + 1 characters (inductive invariant '
